@@ -478,6 +478,7 @@ func (db *SingleBucketBackend) PutObject(
 		return result, err
 	}
 	committed = true
+	verifhook.At("fs.put.before-commit")
 
 	if err := db.metaStore.commitMeta(metaPath); err != nil {
 		return result, err
